@@ -7,6 +7,7 @@ import (
 	"os"
 	"os/exec"
 	"path/filepath"
+	"regexp"
 	"strings"
 	"sync"
 	"time"
@@ -238,6 +239,17 @@ func raceOne(vc *VC, ob *Oblig, base string, cfg solveCfg) {
 		}
 	}
 	ob.Status = "undecided"
+	if !ob.IsCover {
+		// case analysis over the in-place / reallocating outcomes of the appends on the path: with the
+		// outcome fixed the solver's preprocessing removes the conditional array terms that block
+		// quantifier instantiation. Complete (every combination is tried), hence sound.
+		if caseSplitAppends(vc, ob, base, cfg, script) {
+			ob.Status = "proved"
+			ob.Solver = "z3-new (case split over append outcomes)"
+			ob.Output = ""
+			return
+		}
+	}
 	if ob.IsCover {
 		ob.Status = "unknown"
 		// reachability is a vacuity check on the contracts: retry without the quantified background
@@ -287,4 +299,54 @@ func dropQuantified(script string) string {
 		sb.WriteString("\n")
 	}
 	return sb.String()
+}
+
+var inplaceRe = regexp.MustCompile(`\(define-fun (inplace![0-9]+) \(\) Bool`)
+
+func caseSplitAppends(vc *VC, ob *Oblig, base string, cfg solveCfg, script string) bool {
+	ms := inplaceRe.FindAllStringSubmatch(script, -1)
+	if len(ms) == 0 || len(ms) > 3 {
+		return false
+	}
+	i := strings.LastIndex(script, "(check-sat)")
+	if i < 0 {
+		return false
+	}
+	head := script[:i]
+	n := len(ms)
+	results := make([]bool, 1<<n)
+	var wg sync.WaitGroup
+	for mask := 0; mask < 1<<n; mask++ {
+		wg.Add(1)
+		go func(mask int) {
+			defer wg.Done()
+			var sb strings.Builder
+			sb.WriteString(head)
+			for k, m := range ms {
+				if mask&(1<<k) != 0 {
+					fmt.Fprintf(&sb, "(assert %s)\n", m[1])
+				} else {
+					fmt.Fprintf(&sb, "(assert (not %s))\n", m[1])
+				}
+			}
+			sb.WriteString("(check-sat)\n")
+			f := fmt.Sprintf("%s.case%d.smt2", base, mask)
+			os.WriteFile(f, []byte(sb.String()), 0o644)
+			ctx, cancel := context.WithTimeout(context.Background(), time.Duration(cfg.raceTimeoutS+5)*time.Second)
+			out, _ := runCmd(ctx, []string{"z3-new", fmt.Sprintf("-T:%d", cfg.raceTimeoutS), f})
+			cancel()
+			if !cfg.keep {
+				os.Remove(f)
+			}
+			a := answers(out)
+			results[mask] = len(a) > 0 && a[0] == "unsat"
+		}(mask)
+	}
+	wg.Wait()
+	for _, r := range results {
+		if !r {
+			return false
+		}
+	}
+	return true
 }
